@@ -97,15 +97,31 @@ func genC12(t *rapid.T) (*C12Case, []string) {
 		ast.Print(ast.Str("\n")),
 	}
 	nlead := rapid.IntRange(0, len(lead)).Draw(t, "nlead")
-	leadRule := ast.Rule("BEGIN", nil, ast.Block(lead[:nlead]...))
+	// the rule that holds the reached faults: mostly BEGIN, now and then the first BEGINFILE or
+	// pattern rule of a run over one or two input files (an error keeps its position whatever
+	// rule it is raised in and however many files are being read)
+	leadKind := "BEGIN"
+	files := base.Files
+	if len(files) > 0 && len(files[0].Docs) > 0 && strings.TrimSpace(files[0].Docs[0]) != "" && strings.TrimSpace(files[0].Docs[0]) != "[]" {
+		switch rapid.IntRange(0, 4).Draw(t, "leadkind") {
+		case 0:
+			leadKind = "BEGINFILE"
+		case 1:
+			leadKind = "pattern"
+		}
+		if leadKind != "BEGIN" && rapid.Bool().Draw(t, "twofiles") {
+			files = append(append([]DFile{}, files...), DFile{Name: "second", Docs: []string{"[1]"}})
+		}
+	}
+	leadRule := ast.Rule(leadKind, nil, ast.Block(lead[:nlead]...))
 	prog := ast.Prog(append([]*ast.Node{leadRule}, base.Prog.C...)...)
 	r := ast.Render(prog, ast.Full)
 	raw := func(s string) ast.Tok { return ast.Tok{Text: s, Kind: ast.TRaw} }
 	sep := ast.Tok{Kind: ast.TSep}
-	c := &C12Case{Files: base.Files}
+	c := &C12Case{Files: files}
 	var labels []string
 
-	kind := rapid.SampledFrom([]string{"L", "L", "S", "K", "A", "R", "R", "M", "M", "U", "E", "D"}).Draw(t, "faultkind")
+	kind := rapid.SampledFrom([]string{"L", "L", "S", "K", "A", "R", "R", "M", "M", "U", "E", "D", "F"}).Draw(t, "faultkind")
 	if kind == "D" && rapid.IntRange(0, 7).Draw(t, "deepkept") != 0 {
 		kind = "R" // (a run into the depth limit costs about as much as a hundred other cases)
 	}
@@ -187,6 +203,38 @@ func genC12(t *rapid.T) (*C12Case, []string) {
 		c.Class, c.Fault = kit.class, "multi-line construct: "+kit.name
 		c.Exact = kit.exact
 		labels = append(labels, "fault-inside-multi-line-construct")
+	case "F":
+		// the fault sits in the body of a function written on lines of its own; the function is
+		// called (from the leading rule) inside a construct on another line: the error keeps the
+		// position where it happened, whatever construct the value was meant for
+		body := rapid.SampledFrom([]string{"return «1 / c12p»", "c12q = «[ ] < c12p»\n  return c12q", "return «$c12nope»", "return [ 1 ,\n    «c12p ( )» ]"}).Draw(t, "fbody")
+		fn := "function c12bad ( c12p ) {\n  " + body + "\n}"
+		if rapid.Bool().Draw(t, "fcrlf") {
+			fn = strings.ReplaceAll(fn, "\n", "\r\n")
+		}
+		sub0 = strings.Index(fn, "«")
+		fn = strings.Replace(fn, "«", "", 1)
+		sub1 = strings.Index(fn, "»")
+		fn = strings.Replace(fn, "»", "", 1)
+		call := rapid.SampledFrom([]string{
+			"for ( c12e in c12bad ( 0 ) ) { }", "for ( c12e , c12i in c12bad ( 0 ) ) { }", "c12x = [ 1 , c12bad ( 0 ) ]", "print c12bad ( 0 )", "if ( c12bad ( 0 ) ) { }", "while ( c12bad ( 0 ) ) { }",
+			"c12x = match ( c12bad ( 0 ) ) { c12w => 1 }", "c12x = match ( 1 ) { c12w => c12bad ( 0 ) }", "c12x = c11fun ( c12bad ( 0 ) )", "c12x = { k : c12bad ( 0 ) }", "c12x = [ 1 ] [ c12bad ( 0 ) ]",
+			"c12x = c12bad ( 0 ) . k", "c12x = \"s\" . split ( c12bad ( 0 ) )", "printf ( \"%v\" , c12bad ( 0 ) )", "c12x = 1 + c12bad ( 0 )", "c12x = ! c12bad ( 0 )", "for ( c12i = c12bad ( 0 ) ; false ; c12i ++ ) { }",
+			"c12y . k = c12bad ( 0 )", "c12x = 1\nc12x += c12bad ( 0 )", "c12x = c12bad ( 0 ) is number", "c12x = \"a\" ~ c12bad ( 0 )",
+		}).Draw(t, "fcall")
+		blk := leadRule.C[1]
+		var cands []int
+		for _, s := range blk.C {
+			cands = append(cands, r.First[s])
+		}
+		cands = append(cands, r.Last[blk])
+		at := cands[rapid.IntRange(0, len(cands)-1).Draw(t, "leadpos")]
+		toks = insertToks(r, at, raw(call), sep)
+		// the function goes in front of everything (token 0), on lines of its own
+		toks = append([]ast.Tok{raw(fn), {Kind: ast.TSep, NoSemi: true, HardNL: true}}, toks...)
+		f0, f1 = 0, 0
+		c.Class, c.Fault = "runtime", "fault inside a function called from: "+call
+		labels = append(labels, "fault-in-a-function-called-from-another-line")
 	case "D":
 		// a recursion through match cases that runs into the depth limit: the error carries a
 		// position like any other, whichever frame (a call's or a case's) crosses the limit
@@ -238,6 +286,12 @@ func genC12(t *rapid.T) (*C12Case, []string) {
 		c.Universal = true
 	case "R":
 		kits := c11ExprKits()
+		for k := range kits {
+			// (faults inside a helper function, not on the line of the kit)
+			if strings.HasSuffix(k, "at-a-site") {
+				delete(kits, k)
+			}
+		}
 		names := sortedKeys(kits)
 		name := rapid.SampledFrom(names).Draw(t, "kit")
 		var text string
